@@ -84,7 +84,7 @@ func accessAll(p gopacket.Packet, variant int, report func(acc, site, msg string
 		call("LayerClass", func() { _ = p.LayerClass(c) })
 	}
 	call("Layer", func() { _ = p.Layer(gopacket.LayerType(1999)); _ = p.Layer(gopacket.LayerTypePayload); _ = p.Layer(layers.LayerTypeTCP) })
-	for _, l := range ls {
+	for li, l := range ls {
 		l := l
 		if l == nil {
 			report("Layers", "?", "nil layer in Layers()")
@@ -92,7 +92,9 @@ func accessAll(p gopacket.Packet, variant int, report func(acc, site, msg string
 		}
 		var lt gopacket.LayerType
 		call("LayerType", func() { lt = l.LayerType(); _ = lt.String() })
-		call("Layer", func() { _ = p.Layer(lt) })
+		if li < 64 { // p.Layer is linear in the number of layers: keep the monitor itself linear
+			call("Layer", func() { _ = p.Layer(lt) })
+		}
 		call("LayerContents", func() { _ = l.LayerContents(); _ = l.LayerPayload() })
 		call("LayerString", func() { _ = gopacket.LayerString(l) })
 		call("LayerDump", func() { _ = gopacket.LayerDump(l) })
@@ -109,7 +111,7 @@ func accessAll(p gopacket.Packet, variant int, report func(acc, site, msg string
 func monC01(c *ctx, f *firstDec, bits int, data []byte) string {
 	lab := f.label()
 	opts := optsFromBits(bits)
-	in := append([]byte(nil), data...)
+	in := exactCopy(data)
 	var p gopacket.Packet
 	if pk, site, msg := guard(func() { p = gopacket.NewPacket(in, f.dec, opts) }); pk {
 		c.finding("C01", "all:c01:panic:NewPacket:"+site, fmt.Sprintf("NewPacket(%d bytes as %s, opts %d) panicked with recovery on: %s", len(data), lab, bits, msg))
@@ -186,7 +188,7 @@ func c19Report(c *ctx, path, lab string, n int, site, msg string) {
 func c19Direct(c *ctx, ci int, data []byte) string {
 	ct := dlCtors[ci]
 	obj := ct.mk()
-	in := append([]byte(nil), data...) // cap == len: an unguarded slice panics instead of reading foreign bytes
+	in := exactCopy(data) // cap == len: an unguarded slice panics instead of reading foreign bytes
 	res := "ok"
 	switch l := obj.(type) {
 	case decodeFromBytes:
@@ -238,7 +240,7 @@ func monC19(c *ctx, f *firstDec, bits int, data []byte) {
 	lab := f.label()
 	dsad := bits&8 != 0
 	// (1) NewPacket with SkipDecodeRecovery (eager and, when the lazy bit is set, lazy + Layers())
-	in := append([]byte(nil), data...)
+	in := exactCopy(data)
 	opts := gopacket.DecodeOptions{SkipDecodeRecovery: true, DecodeStreamsAsDatagrams: dsad, Lazy: bits&1 != 0}
 	if pk, site, msg := guard(func() {
 		p := gopacket.NewPacket(in, f.dec, opts)
@@ -255,7 +257,7 @@ func monC19(c *ctx, f *firstDec, bits int, data []byte) {
 	}
 	// (3) DecodingLayerParser that lets panics through (IgnorePanic=true disables its recover)
 	if len(ctorsByLT[f.lt]) > 0 {
-		in2 := append([]byte(nil), data...)
+		in2 := exactCopy(data)
 		if pk, site, msg := guard(func() {
 			parser := gopacket.NewDecodingLayerParser(f.lt, allDecodingLayers()...)
 			parser.IgnorePanic = true
@@ -575,7 +577,7 @@ func monC02(c *ctx, f *firstDec, bits int, data []byte) {
 	c.stat("c02:nocopy-checked")
 	// remember as unrelated traffic for later ops
 	pastMu.Lock()
-	past[pastN%len(past)] = pastInput{f.dec, append([]byte(nil), data...)}
+	past[pastN%len(past)] = pastInput{f.dec, exactCopy(data)}
 	pastN++
 	pastMu.Unlock()
 }
@@ -586,7 +588,7 @@ func monC02(c *ctx, f *firstDec, bits int, data []byte) {
 func monConc(c *ctx, f *firstDec, data []byte) {
 	lab := f.label()
 	var p gopacket.Packet
-	in := append([]byte(nil), data...)
+	in := exactCopy(data)
 	if pk, _, _ := guard(func() { p = gopacket.NewPacket(in, f.dec, gopacket.Default) }); pk || p == nil {
 		return
 	}
@@ -641,4 +643,12 @@ func monConc(c *ctx, f *firstDec, data []byte) {
 // typed fields (IP, NS, CNAME, PTR, SOA, MX, SRV, TXTs, OPT, URI) carry the values and are compared.
 func rawDuplicateField(typ, field string) bool {
 	return typ == "DNSResourceRecord" && (field == "Data" || field == "DataLength")
+}
+
+// exactCopy returns a copy of b with cap == len (append([]byte(nil), b...) rounds the capacity
+// up to a size class, and an unguarded data[4:8] on a 4-byte input would then NOT panic).
+func exactCopy(b []byte) []byte {
+	c := make([]byte, len(b))
+	copy(c, b)
+	return c[:len(b):len(b)]
 }
